@@ -464,3 +464,24 @@ CHECKS["C06"] = {
                                      "a loop callback that changes nothing visible is treated as a retry and yields to the other thread (fair scheduling)"],
     "job_timeout": {"quick": 300, "thorough": 1500},
 }
+
+
+# ---- per-property fragments written next to their harness (harness/cNN.registry.py) ----
+def _load_fragment(pid, path):
+    import os
+    g = {}
+    with open(path) as fh:
+        exec(compile(fh.read(), path, "exec"), g)
+    HARNESSES.update(g["HARNESS"])
+    c = dict(g["CHECK"])
+    c.setdefault("assumptions", DEFAULT_ASSUME)
+    c.setdefault("design_ref", "DESIGN.md section 3 " + pid)
+    CHECKS[pid] = c
+
+import os as _os
+_frag_dir = _os.path.join(_os.path.dirname(_os.path.dirname(_os.path.abspath(__file__))), "harness")
+FRAGMENTS = ["C15", "C16"]
+for _pid in FRAGMENTS:
+    _f = _os.path.join(_frag_dir, _pid.lower() + ".registry.py")
+    if _os.path.exists(_f):
+        _load_fragment(_pid, _f)
